@@ -493,7 +493,8 @@ def run(ctx):
                                      "sympy in the worker to evaluate closed forms exactly at n <= 6"]
     ctx.assumptions += ["CPython set / dict iteration order and the purity of lru_cache'd functions are validated by the differential runs only (not proved)",
                         "histories, permutations and seeds are sampled: <= 4 predecessors, <= 3 goals, PYTHONHASHSEED in {0,1,2,3}",
-                        "in-process sequences the polar.py CLI cannot produce (PlotAction followed by GoalsAction, two parser invocations) are reported as known findings marked in-process-only"]
+                        "in-process sequences the polar.py CLI cannot produce (PlotAction followed by GoalsAction, two parser invocations) are compared like the others "
+                        "(the leaks found there were repaired in /repo b41df71)"]
 
 
 ANSI = re.compile(r"\x1b\[[0-9;]*m")
